@@ -25,7 +25,7 @@ func (k msgServer) Cancel(goCtx context.Context, msg *types.MsgCancel) (*types.M
 		isCreator = true
 	} else {
 		node, found := k.node.GetNode(ctx, msg.Provider)
-		if found {
+		if found && msg.Provider == order.Provider {
 			for _, address := range node.TxAddresses {
 				if order.Creator == address {
 					isCreator = true
